@@ -510,6 +510,28 @@ func (c *FnCtx) applyContract(st *State, ct *Contract, key string, args []Val, c
 			}
 		}
 	}
+	// a callee whose contract speaks about the io ghosts performs reads/writes: allFull can only
+	// go from true to false, ioBytes only grow
+	ioCallee := false
+	for _, en := range ct.Ensures {
+		if mentionsAny(en.Expr, []string{"allFull", "ioBytes"}) {
+			ioCallee = true
+		}
+	}
+	if ioCallee {
+		if o := c.ghostObjs["allFull"]; o != nil {
+			if af, ok := st.env[o].(SV); ok {
+				st.env[o] = SV{c.define("allFull", SBool, and(af.T, c.fresh("calleeFull", SBool))), SBool, false}
+			}
+		}
+		if o := c.ghostObjs["ioBytes"]; o != nil {
+			if gb, ok := st.env[o].(SV); ok {
+				d := c.fresh("calleeBytes", S64)
+				c.assume(st, app("bvsle", bvInt(0, 64), d))
+				st.env[o] = SV{c.define("ioBytes", S64, app("bvadd", gb.T, d)), S64, true}
+			}
+		}
+	}
 	post := map[string]Val{}
 	for k, v := range vars {
 		post[k] = v
